@@ -234,3 +234,14 @@ func NewNodeAt(w *World, self *Deputy, deputyCount int, dir string) *Node {
 	n.open(false)
 	return n
 }
+
+// CloseDB closes a store the way a process exit does for the test's purposes: the background writer is allowed to finish
+// first. ChainDatabase.Close only signals the writer; reopening (or deleting) the directory while the old writer still runs
+// would have two writers on one set of files - something a real restart cannot produce.
+func CloseDB(db *store.ChainDatabase) {
+	deadline := time.Now().Add(5 * time.Second)
+	for time.Now().Before(deadline) && db.Beansdb.VerifPending() != 0 {
+		time.Sleep(time.Millisecond)
+	}
+	db.Close()
+}
